@@ -136,6 +136,10 @@ def parse_discrete(line):
     return names, descr, log, neq
 
 
+import re as _re0
+_re_sep = _re0.compile(r"!!(shocks|variables|equations)\b")
+
+
 def is_int_power_finding(message: str, sm, subs, want=None) -> bool:
     """the known finding `integer-constant-to-negative-power`: numpy refuses `np.int64 ** negative int`; all three must hold:
     the implementation raises exactly that ValueError, the structured model contains an integer-valued constant subexpression
@@ -192,6 +196,11 @@ def check_model_case(ctx: Ctx, case, model_reply, value_site="equation-meaning")
         for u in used:
             ctx.count("alt:" + u)
         if line == "err:bad":
+            m_ = _re_sep.search(source)
+            if m_ and any(d[1] == m_.group(1) for d in sm["decls"]):
+                # `!!shocks…`: the separator glued to a variable that is spelled like a shortcut keyword
+                ctx.fail("steady-separator-shortcut-keyword", payload, f"from_string rejects `!!{m_.group(1)}`: {dyn}")
+                continue
             ctx.fail(site_for(features, "source-rejected"), payload, f"from_string raises on a source of the documented language: {dyn}")
             continue
         if std is None:
@@ -796,7 +805,7 @@ def run_kwnorm_stream(ctx: Ctx, n: int):
     rng = ctx.rng.fork("kwnorm")
     fixed = sorted({k for v in L.KEYWORDS.values() for k in v}) + ["!!", "!!k_ss", "!!x_1", "k_ss", "x_1_2", "!k_ss", "!foo_bar", "!ab__c", "!a1_b",
              "!_x", "!ab_", "!for", "!if", "!end", "!list", "!steady_autovalues", "!autoswaps_simulate", "!autoswaps_steady", "!preprocessor",
-             "!postprocessor", "!substitutions", "!Transition_variables", "!transition_Variables", "!!transition_variables", "a!!b_c", "=", "x{-1}"]
+             "!postprocessor", "!substitutions", "!!shocks", "!!variables", "!!equations", "!!shocks_1", "!Transition_variables", "!transition_Variables", "!!transition_variables", "a!!b_c", "=", "x{-1}"]
     words = list(fixed)
     for _ in range(n):
         w = rng.choice(["", "", "!", "!", "!!"]) + "".join(rng.choice("abzq_-1A") for _ in range(rng.randint(0, 8)))
@@ -818,10 +827,11 @@ def run_kwnorm_stream(ctx: Ctx, n: int):
     for kind, outs in canon.items():
         if len(outs) != 1:
             ctx.fail("keyword-aliases", {"stream": "kwnorm", "kind": kind}, f"aliases of one keyword normalise to different keywords: {sorted(outs)}")
-    for w in ["!!k_ss", "k_ss", "!!", "x_1_2", "!!x_1", "a!!b_c"]:
+    for w in ["!!k_ss", "k_ss", "!!", "x_1_2", "!!x_1", "a!!b_c", "!!shocks", "!!variables", "!!equations", "!!shocks_1", "x=1!!equations"]:
         got = _pm._replace_underscores_by_hyphens(_pm._expand_shortcut_keywords(w))
         if got != w:
-            ctx.fail("keyword-normaliser-touches-names", {"stream": "kwnorm", "word": w}, f"{w!r} became {got!r}")
+            site = "steady-separator-shortcut-keyword" if any(k in w for k in ("!!shocks", "!!variables", "!!equations")) else "keyword-normaliser-touches-names"
+            ctx.fail(site, {"stream": "kwnorm", "word": w}, f"{w!r} became {got!r}")
 
 
 def run_subs_stream(ctx: Ctx, n: int):
